@@ -6,6 +6,9 @@
   transpose / sqrtform / ifinvert / commute:<file>
                                    X.T -> X.transpose(); np.sqrt(x) -> x ** 0.5 and x ** 2 -> x * x;
                                    two-armed ifs inverted; operands of + and * exchanged
+  extract / inline / dotform / retvar:<file>
+                                   a temporary introduced / removed; a.dot(b), np.dot(a, b) -> a @ b;
+                                   return <e> -> _ret = <e>; return _ret
 """
 import ast
 import os
@@ -198,8 +201,54 @@ class InlineTemp(ast.NodeTransformer):
         return node
 
 
+class DotForm(ast.NodeTransformer):
+    """a.dot(b) -> a @ b and np.dot(a, b) -> a @ b (two operands, no out=): the same product for
+    the 1-D / 2-D operands the package uses"""
+    def visit_Call(self, node):
+        self.generic_visit(node)
+        if node.keywords:
+            return node
+        if isinstance(node.func, ast.Attribute) and node.func.attr == 'dot' and \
+                len(node.args) == 1 and not (isinstance(node.func.value, ast.Name) and
+                                             node.func.value.id == 'np'):
+            return ast.BinOp(left=node.func.value, op=ast.MatMult(), right=node.args[0])
+        if isinstance(node.func, ast.Attribute) and node.func.attr == 'dot' and \
+                isinstance(node.func.value, ast.Name) and node.func.value.id == 'np' and \
+                len(node.args) == 2:
+            return ast.BinOp(left=node.args[0], op=ast.MatMult(), right=node.args[1])
+        return node
+
+
+class RetVar(ast.NodeTransformer):
+    """return <expression>  ->  _ret = <expression>; return _ret   (functions without nested
+    scopes reading `_ret`; generators untouched)"""
+    def _block(self, body):
+        out = []
+        for st in body:
+            if isinstance(st, ast.Return) and st.value is not None and \
+                    not isinstance(st.value, (ast.Name, ast.Constant)):
+                out.append(ast.Assign(targets=[ast.Name('_ret', ast.Store())], value=st.value))
+                out.append(ast.Return(value=ast.Name('_ret', ast.Load())))
+            else:
+                out.append(st)
+        return out
+
+    def generic_visit(self, node):
+        node = super().generic_visit(node)
+        for fld in ('body', 'orelse', 'finalbody'):
+            b = getattr(node, fld, None)
+            if isinstance(b, list) and b and isinstance(b[0], ast.stmt) and \
+                    not isinstance(node, ast.ClassDef):
+                setattr(node, fld, self._block(b))
+        return node
+
+    def visit_Lambda(self, node):
+        return node
+
+
 MODULE_TRANSFORMS = {'transpose': TtoTranspose, 'sqrtform': SqrtForm, 'ifinvert': IfInvert,
-                     'commute': Commute, 'extract': ExtractTemp, 'inline': InlineTemp}
+                     'commute': Commute, 'extract': ExtractTemp, 'inline': InlineTemp,
+                     'dotform': DotForm, 'retvar': RetVar}
 
 
 def transforms(root):
